@@ -230,6 +230,42 @@ def main():
     facts["codecVars"] = sorted(ijson_vars)
     facts["legacyGates"] = {"usesStdlib": '"encoding/json"' in lpatch and '"encoding/json"' in lmerge}
 
+    # ---- shared state / pooled objects (assumed facts of the C09/C10 world model, JP/World)
+    def funcs_of(src):
+        """(name, body) of every top-level function / method"""
+        out = []
+        for m in re.finditer(r"^func (?:\([^)]*\) )?([A-Za-z_][A-Za-z0-9_]*)\(", src, re.M):
+            hdr = re.escape(src[m.start():m.end()])
+            body = func_body(src, "^" + hdr)
+            out.append((m.group(1), body or ""))
+        return out
+
+    rb = func_body(scanner, r"^func \(s \*scanner\) reset\(") or ""
+    facts["scanResetAssigns"] = sorted(set(re.findall(r"s\.([A-Za-z]+) = ", rb)))
+    nsb = func_body(scanner, r"^func newScanner\(") or ""
+    facts["newScannerResets"] = ("scan.reset()" in nsb) and ("scan.bytes = 0" in nsb) and ("scannerPool.Get()" in nsb)
+    neb = func_body(encode, r"^func newEncodeState\(") or ""
+    facts["newEncodeState"] = [x in neb for x in ("e.Reset()", "len(e.ptrSeen) > 0", "panic(", "e.ptrLevel = 0")]
+    facts["lastKeysAssignSites"] = len(re.findall(r"d\.lastKeys = ", decode))
+    facts["lastKeysReadSites"] = len(re.findall(r"return d\.lastKeys", decode))
+    facts["disallowUnknownAssignSites"] = sorted(set(
+        f for f in sorted(os.listdir(os.path.join(repo, "v5/internal/json")))
+        if f.endswith(".go") and not f.endswith("_test.go") and f != "verif_hook.go"
+        and re.search(r"disallowUnknownFields = ", read(os.path.join(repo, "v5/internal/json", f)))))
+    # which functions of the library mention the order list `keys`
+    facts["keysMentions"] = sorted(set(name for name, body in funcs_of(patch) + funcs_of(merge) if re.search(r"\.keys\b", body)))
+    # package variables are never assigned outside their declaration
+    facts["packageVarWrites"] = len(re.findall(r"^\s*(?:jsonpatch\.)?(?:SupportNegativeIndices|AccumulatedCopySizeLimit)\s*=[^=]", patch + merge, re.M))
+    # every pool Get in the codec's entry points is released by a deferred Put in the same function
+    pools = {}
+    for name in ("Unmarshal", "UnmarshalWithKeys", "UnmarshalValid", "UnmarshalValidWithKeys"):
+        bd = func_body(decode, r"^func " + name + r"\(") or ""
+        pools[name] = [len(re.findall(r"ds\.Get\(\)", bd)), len(re.findall(r"defer ds\.Put\(d\)", bd)), bd.find("d.init(data)") > bd.find("ds.Get()") >= 0]
+    facts["decodePoolDiscipline"] = pools
+    # the caller's bytes: every write through an index / append to doc, patchData, docData or *n.raw in patch.go/merge.go
+    facts["inputWrites"] = len(re.findall(r"\b(?:doc|docData|patchData|originalJSON|modifiedJSON|buf)\[[^\]]*\]\s*=[^=]", patch + merge)) \
+        + len(re.findall(r"\(\*n\.raw\)\[[^\]]*\]\s*=[^=]", patch + merge))
+
     def b(x):
         return "true" if x else "false"
 
@@ -264,6 +300,17 @@ def main():
     L.append("def packageVars : List String := " + lean_list(lean_str(x) for x in facts["packageVars"]))
     L.append("def codecVars : List String := " + lean_list(lean_str(x) for x in facts["codecVars"]))
     L.append(f"def legacyUsesStdlib : Bool := {b(facts['legacyGates']['usesStdlib'])}")
+    L.append("def scanResetAssigns : List String := " + lean_list(lean_str(x) for x in facts["scanResetAssigns"]))
+    L.append(f"def newScannerResets : Bool := {b(facts['newScannerResets'])}")
+    L.append("def newEncodeState : List Bool := " + lean_list(b(x) for x in facts["newEncodeState"]))
+    L.append(f"def lastKeysAssignSites : Nat := {facts['lastKeysAssignSites']}")
+    L.append(f"def lastKeysReadSites : Nat := {facts['lastKeysReadSites']}")
+    L.append("def disallowUnknownAssignFiles : List String := " + lean_list(lean_str(x) for x in facts["disallowUnknownAssignSites"]))
+    L.append("def keysMentions : List String := " + lean_list(lean_str(x) for x in facts["keysMentions"]))
+    L.append(f"def packageVarWrites : Nat := {facts['packageVarWrites']}")
+    L.append("def decodePoolDiscipline : List (String × Nat × Nat × Bool) := " + lean_list(
+        "(" + lean_str(k) + ", " + str(v[0]) + ", " + str(v[1]) + ", " + b(v[2]) + ")" for k, v in sorted(pools.items())))
+    L.append(f"def inputWrites : Nat := {facts['inputWrites']}")
     L.append("\nend JP.Generated")
     text = "\n".join(L) + "\n"
     os.makedirs(os.path.dirname(outp), exist_ok=True)
